@@ -511,6 +511,8 @@ def observe(f):
         return ("val", tree(r, None, drain=True)), None, r
     except Unsupported as e:
         return ("other", "unprintable result: %s" % e), None, r
+    except Exception as e:                    # an unfinalised lazy result (context without '#finalize') that raises when read
+        return ("other", "reading the result raised %s.%s" % (type(e).__module__, type(e).__name__)), e, r
 
 
 def obs_term(o):
